@@ -453,6 +453,9 @@ func (e *Exec) loadPath(st *State, v Value, path []Sel) Value {
 			} else {
 				// ite chain over all elements, each loaded through the rest of the path
 				rest := path[pi+1:]
+				if os.Getenv("GOSMT_SYMLOAD") != "" && len(x.e) > 16 {
+					fmt.Fprintf(os.Stderr, "symload len=%d at %s idx=%s\n", len(x.e), e.posStr(), s.sym.String())
+				}
 				var acc Value
 				for i := len(x.e) - 1; i >= 0; i-- {
 					ev := e.loadPath(st, x.e[i], rest)
